@@ -1,0 +1,104 @@
+//go:build verif
+// +build verif
+
+package gocql
+
+import (
+	"math/rand"
+	"net"
+)
+
+// This file exists only in builds with the "verif" tag. It gives the
+// deterministic simulator read-only views of driver state and a way to seed
+// the package's private random source. It changes no behaviour.
+
+// VerifReseed replaces the package-private random source used by shuffleHosts.
+func VerifReseed(seed int64) {
+	mutRandr.Lock()
+	randr = rand.New(rand.NewSource(seed))
+	mutRandr.Unlock()
+}
+
+// VerifDisableControlConn sets the unexported ClusterConfig.disableControlConn
+// (the same switch the package's unit tests use).
+func VerifDisableControlConn(cfg *ClusterConfig, v bool) {
+	cfg.disableControlConn = v
+}
+
+// VerifNetConn returns the net.Conn the connection was dialled with.
+func (c *Conn) VerifNetConn() net.Conn { return c.conn }
+
+// VerifHost returns the host the connection belongs to.
+func (c *Conn) VerifHost() *HostInfo { return c.host }
+
+// VerifVersion returns the protocol version of the connection.
+func (c *Conn) VerifVersion() int { return int(c.version) }
+
+// VerifPoolConns returns a snapshot of the pooled connections per host id.
+func (s *Session) VerifPoolConns() map[string][]*Conn {
+	out := make(map[string][]*Conn)
+	s.pool.mu.RLock()
+	pools := make(map[string]*hostConnPool, len(s.pool.hostConnPools))
+	for id, p := range s.pool.hostConnPools {
+		pools[id] = p
+	}
+	s.pool.mu.RUnlock()
+	for id, p := range pools {
+		p.mu.RLock()
+		out[id] = append([]*Conn(nil), p.conns...)
+		p.mu.RUnlock()
+	}
+	return out
+}
+
+// VerifPoolHosts returns, per host id with a pool, the pool's host.
+func (s *Session) VerifPoolHosts() map[string]*HostInfo {
+	out := make(map[string]*HostInfo)
+	s.pool.mu.RLock()
+	for id, p := range s.pool.hostConnPools {
+		out[id] = p.host
+	}
+	s.pool.mu.RUnlock()
+	return out
+}
+
+// VerifPoolSize returns the configured pool size.
+func (s *Session) VerifPoolSize() int { return s.pool.numConns }
+
+// VerifRing returns snapshots of the ring's three indexes.
+func (s *Session) VerifRing() (byID map[string]*HostInfo, byIP map[string]string, list []*HostInfo) {
+	s.ring.mu.RLock()
+	defer s.ring.mu.RUnlock()
+	byID = make(map[string]*HostInfo, len(s.ring.hosts))
+	for k, v := range s.ring.hosts {
+		byID[k] = v
+	}
+	byIP = make(map[string]string, len(s.ring.hostIPToUUID))
+	for k, v := range s.ring.hostIPToUUID {
+		byIP[k] = v
+	}
+	list = append(list, s.ring.hostList...)
+	return
+}
+
+// VerifHostByIP is ring.getHostByIP.
+func (s *Session) VerifHostByIP(ip string) (*HostInfo, bool) { return s.ring.getHostByIP(ip) }
+
+// VerifPreparedLen returns the number of entries in the prepared statement cache.
+func (s *Session) VerifPreparedLen() int {
+	s.stmtsLRU.mu.Lock()
+	defer s.stmtsLRU.mu.Unlock()
+	return s.stmtsLRU.lru.Len()
+}
+
+// VerifControlConn returns the current control connection, or nil.
+func (s *Session) VerifControlConn() *Conn {
+	if s.control == nil {
+		return nil
+	}
+	ch := s.control.getConn()
+	if ch == nil {
+		return nil
+	}
+	return ch.conn
+}
